@@ -5,6 +5,10 @@
 //!     s<h>:<v>  send v / notify through sender handle h        c<h>  clone handle h
 //!     d<h>      drop sender handle h                            r     drop the receiver
 //!     p<w>      poll the receiving future with waker w          q<w>  same, on a freshly created future (mpsc)
+//!     P<w>/<op> poll with waker w WHILE a second thread attempts the sender-side <op> (released from inside
+//!               the poll, at Waker::clone; see `race`): two output tokens, poll then op; `~` after the poll
+//!               token = the op completed inside the poll (on the unchanged code only an op that takes no lock,
+//!               i.e. a `k` through a dead handle, can); `T` = undecided
 //! output line: one token per op: k (not expressible: handle gone), u (unit), e (send error),
 //!     v<value> (Ready value), c (Ready closed), p (Pending); followed by `!<waker>` per wake issued
 //!     during the op.
@@ -15,21 +19,36 @@ use dust_dds::dcps::channels::oneshot::{oneshot, OneshotReceiver, OneshotSender}
 use dust_dds::infrastructure::error::DdsError;
 use std::future::Future;
 use std::pin::Pin;
+use std::cell::RefCell;
 use std::sync::atomic::{AtomicBool, AtomicUsize, Ordering};
-use std::sync::Arc;
-use std::task::{Context, Poll, Wake, Waker};
+use std::sync::{Arc, Mutex};
+use std::task::{Context, Poll, RawWaker, RawWakerVTable, Wake, Waker};
 use std::time::{Duration, Instant};
 
+// Counting waker built on a RawWaker vtable so that `Waker::clone()` can run a hook: the
+// channels call `cx.waker().clone()` inside poll; the hook is the point where a concurrent
+// thread is let loose (see `race`).
 struct CountWaker {
     n: AtomicUsize,
 }
-impl Wake for CountWaker {
-    fn wake(self: Arc<Self>) {
-        self.n.fetch_add(1, Ordering::SeqCst);
-    }
-    fn wake_by_ref(self: &Arc<Self>) {
-        self.n.fetch_add(1, Ordering::SeqCst);
-    }
+static VTABLE: RawWakerVTable = RawWakerVTable::new(vt_clone, vt_wake, vt_wake_by_ref, vt_drop);
+unsafe fn vt_clone(p: *const ()) -> RawWaker {
+    on_clone();
+    unsafe { Arc::increment_strong_count(p as *const CountWaker) };
+    RawWaker::new(p, &VTABLE)
+}
+unsafe fn vt_wake(p: *const ()) {
+    let a = unsafe { Arc::from_raw(p as *const CountWaker) };
+    a.n.fetch_add(1, Ordering::SeqCst);
+}
+unsafe fn vt_wake_by_ref(p: *const ()) {
+    unsafe { &*(p as *const CountWaker) }.n.fetch_add(1, Ordering::SeqCst);
+}
+unsafe fn vt_drop(p: *const ()) {
+    drop(unsafe { Arc::from_raw(p as *const CountWaker) });
+}
+fn count_waker(c: &Arc<CountWaker>) -> Waker {
+    unsafe { Waker::from_raw(RawWaker::new(Arc::into_raw(c.clone()) as *const (), &VTABLE)) }
 }
 
 const NWAKERS: usize = 8;
@@ -42,7 +61,7 @@ struct Wakers {
 impl Wakers {
     fn new() -> Self {
         let cells: Vec<_> = (0..NWAKERS).map(|_| Arc::new(CountWaker { n: AtomicUsize::new(0) })).collect();
-        let wakers = cells.iter().map(|c| Waker::from(c.clone())).collect();
+        let wakers = cells.iter().map(count_waker).collect();
         Wakers { cells, wakers, seen: vec![0; NWAKERS] }
     }
     /// wakes issued since the last call, as `!w` tokens
@@ -59,32 +78,143 @@ impl Wakers {
     }
 }
 
+// ------------------------------------------------- a real two-thread interleaving, made
+// deterministic by the lock: the helper thread is released from INSIDE the receiver's poll
+// (hook in Waker::clone) and the hook waits until the helper's operation either has COMPLETED
+// (then it ran inside the poll: poll is not one critical section) or is BLOCKED on the
+// critical-section lock (then clone runs inside the section and the operation is serialised
+// after the poll).  "Blocked" is read from /proc/self/task/<tid>/stat (state S after the
+// helper announced that it is about to run its operation: the only place it can sleep is the
+// futex of the global critical-section mutex).
+#[derive(Default)]
+struct RaceState {
+    ready: AtomicBool,
+    go: AtomicBool,
+    started: AtomicBool,
+    done: AtomicBool,
+    in_window: AtomicBool,
+    undecided: AtomicBool,
+    tid: AtomicUsize,
+    helper: Mutex<Option<std::thread::Thread>>,
+}
+thread_local!(static ARMED: RefCell<Option<Arc<RaceState>>> = const { RefCell::new(None) });
+
+fn my_tid() -> usize {
+    std::fs::read_link("/proc/thread-self")
+        .ok()
+        .and_then(|p| p.file_name().and_then(|f| f.to_str()).and_then(|f| f.parse().ok()))
+        .unwrap_or(0)
+}
+fn thread_state(tid: usize) -> Option<char> {
+    let s = std::fs::read_to_string(format!("/proc/self/task/{}/stat", tid)).ok()?;
+    let i = s.rfind(')')?;
+    s[i + 1..].trim_start().chars().next()
+}
+fn release(st: &RaceState) {
+    st.go.store(true, Ordering::SeqCst);
+    if let Some(t) = st.helper.lock().unwrap().as_ref() {
+        t.unpark();
+    }
+}
+fn on_clone() {
+    let Some(st) = ARMED.with(|a| a.borrow_mut().take()) else { return };
+    release(&st);
+    let tid = st.tid.load(Ordering::SeqCst);
+    let t0 = Instant::now();
+    let mut asleep = 0;
+    loop {
+        if st.done.load(Ordering::SeqCst) {
+            st.in_window.store(true, Ordering::SeqCst);
+            return;
+        }
+        if st.started.load(Ordering::SeqCst) {
+            if tid != 0 {
+                if thread_state(tid) == Some('S') {
+                    asleep += 1;
+                    if asleep >= 3 && !st.done.load(Ordering::SeqCst) {
+                        return; // blocked on the critical-section lock that this thread holds
+                    }
+                } else {
+                    asleep = 0;
+                }
+            } else if t0.elapsed() > Duration::from_millis(300) {
+                return; // no /proc: grace period only
+            }
+        }
+        if t0.elapsed() > Duration::from_secs(20) {
+            st.undecided.store(true, Ordering::SeqCst);
+            return;
+        }
+        std::thread::yield_now();
+    }
+}
+
+/// poll ∥ act: returns (poll token, act token); the poll token carries `~` when the
+/// concurrent operation completed inside the poll, and is `T` when that could not be decided
+fn race(poll: impl FnOnce() -> String, act: impl FnOnce() -> String + Send) -> (String, String) {
+    let st = Arc::new(RaceState::default());
+    std::thread::scope(|sc| {
+        let st2 = st.clone();
+        let h = sc.spawn(move || {
+            st2.tid.store(my_tid(), Ordering::SeqCst);
+            *st2.helper.lock().unwrap() = Some(std::thread::current());
+            st2.ready.store(true, Ordering::SeqCst);
+            while !st2.go.load(Ordering::SeqCst) {
+                std::thread::park_timeout(Duration::from_millis(50));
+            }
+            st2.started.store(true, Ordering::SeqCst);
+            let r = act();
+            st2.done.store(true, Ordering::SeqCst);
+            r
+        });
+        while !st.ready.load(Ordering::SeqCst) {
+            std::thread::yield_now();
+        }
+        ARMED.with(|a| *a.borrow_mut() = Some(st.clone()));
+        let mut p = poll();
+        ARMED.with(|a| a.borrow_mut().take()); // poll did not clone the waker: nothing was released
+        release(&st);
+        let a = h.join().unwrap();
+        if st.undecided.load(Ordering::SeqCst) {
+            p = "T".to_string();
+        } else if st.in_window.load(Ordering::SeqCst) {
+            p.push('~');
+        }
+        (p, a)
+    })
+}
+
 enum Op {
     Send(usize, i64),
     Clone(usize),
     DropS(usize),
     Poll(usize, bool),
     DropR,
+    /// poll with waker w while a sender-side operation is attempted concurrently
+    Race(usize, Box<Op>),
 }
 
+fn parse_op(t: &str) -> Op {
+    let (c, rest) = t.split_at(1);
+    match c {
+        "s" => {
+            let (h, v) = rest.split_once(':').unwrap();
+            Op::Send(h.parse().unwrap(), v.parse().unwrap())
+        }
+        "c" => Op::Clone(rest.parse().unwrap()),
+        "d" => Op::DropS(rest.parse().unwrap()),
+        "p" => Op::Poll(rest.parse().unwrap(), false),
+        "q" => Op::Poll(rest.parse().unwrap(), true),
+        "r" => Op::DropR,
+        "P" => {
+            let (w, a) = rest.split_once('/').unwrap();
+            Op::Race(w.parse().unwrap(), Box::new(parse_op(a)))
+        }
+        _ => panic!("bad op"),
+    }
+}
 fn parse_ops(s: &str) -> Vec<Op> {
-    s.split_whitespace()
-        .map(|t| {
-            let (c, rest) = t.split_at(1);
-            match c {
-                "s" => {
-                    let (h, v) = rest.split_once(':').unwrap();
-                    Op::Send(h.parse().unwrap(), v.parse().unwrap())
-                }
-                "c" => Op::Clone(rest.parse().unwrap()),
-                "d" => Op::DropS(rest.parse().unwrap()),
-                "p" => Op::Poll(rest.parse().unwrap(), false),
-                "q" => Op::Poll(rest.parse().unwrap(), true),
-                "r" => Op::DropR,
-                _ => panic!("bad op"),
-            }
-        })
-        .collect()
+    s.split_whitespace().map(parse_op).collect()
 }
 
 fn live<T>(v: &[Option<T>], h: usize) -> bool {
@@ -92,6 +222,29 @@ fn live<T>(v: &[Option<T>], h: usize) -> bool {
 }
 
 // ------------------------------------------------------------------ oneshot
+fn act_oneshot(txs: &mut Vec<Option<OneshotSender<i64>>>, op: &Op) -> String {
+    match *op {
+        Op::Send(h, v) if live(txs, h) => {
+            txs[h].take().unwrap().send(v);
+            "u".to_string()
+        }
+        Op::DropS(h) if live(txs, h) => {
+            drop(txs[h].take());
+            "u".to_string()
+        }
+        _ => "k".to_string(),
+    }
+}
+fn poll_oneshot(rx: &mut Option<OneshotReceiver<i64>>, waker: &Waker) -> String {
+    let Some(rx) = rx.as_mut() else { return "k".to_string() };
+    let mut cx = Context::from_waker(waker);
+    match Pin::new(rx).poll(&mut cx) {
+        Poll::Ready(Ok(v)) => format!("v{}", v),
+        Poll::Ready(Err(DdsError::AlreadyDeleted)) => "c".to_string(),
+        Poll::Ready(Err(_)) => "x".to_string(),
+        Poll::Pending => "p".to_string(),
+    }
+}
 fn run_oneshot(ops: Vec<Op>) -> String {
     let mut wk = Wakers::new();
     let (tx, rx) = oneshot::<i64>();
@@ -99,31 +252,18 @@ fn run_oneshot(ops: Vec<Op>) -> String {
     let mut rx: Option<OneshotReceiver<i64>> = Some(rx);
     let mut out = Vec::new();
     for op in ops {
-        let r = match op {
-            Op::Send(h, v) if live(&txs, h) => {
-                txs[h].take().unwrap().send(v);
-                "u".to_string()
+        match op {
+            Op::Poll(w, _) => out.push(poll_oneshot(&mut rx, &wk.wakers[w])),
+            Op::DropR => out.push(if rx.take().is_some() { "u" } else { "k" }.to_string()),
+            Op::Race(w, a) => {
+                let (p, r) = race(|| poll_oneshot(&mut rx, &wk.wakers[w]), || act_oneshot(&mut txs, &a));
+                out.push(p);
+                out.push(r);
             }
-            Op::DropS(h) if live(&txs, h) => {
-                drop(txs[h].take());
-                "u".to_string()
-            }
-            Op::Poll(w, _) if rx.is_some() => {
-                let mut cx = Context::from_waker(&wk.wakers[w]);
-                match Pin::new(rx.as_mut().unwrap()).poll(&mut cx) {
-                    Poll::Ready(Ok(v)) => format!("v{}", v),
-                    Poll::Ready(Err(DdsError::AlreadyDeleted)) => "c".to_string(),
-                    Poll::Ready(Err(_)) => "x".to_string(),
-                    Poll::Pending => "p".to_string(),
-                }
-            }
-            Op::DropR if rx.is_some() => {
-                drop(rx.take());
-                "u".to_string()
-            }
-            _ => "k".to_string(),
-        };
-        out.push(r + &wk.delta());
+            op => out.push(act_oneshot(&mut txs, &op)),
+        }
+        let d = wk.delta();
+        out.last_mut().unwrap().push_str(&d);
     }
     out.join(" ")
 }
@@ -161,6 +301,33 @@ impl Drop for MpscRx {
     }
 }
 
+fn act_mpsc(txs: &mut Vec<Option<MpscSender<i64>>>, op: &Op) -> String {
+    match *op {
+        Op::Send(h, v) if live(txs, h) => match txs[h].as_ref().unwrap().send(v) {
+            Ok(()) => "u".to_string(),
+            Err(_) => "e".to_string(),
+        },
+        Op::Clone(h) if live(txs, h) => {
+            let c = txs[h].as_ref().unwrap().clone();
+            txs.push(Some(c));
+            "u".to_string()
+        }
+        Op::DropS(h) if live(txs, h) => {
+            drop(txs[h].take());
+            "u".to_string()
+        }
+        _ => "k".to_string(),
+    }
+}
+fn poll_mpsc(rx: &mut Option<MpscRx>, waker: &Waker, fresh: bool) -> String {
+    let Some(rx) = rx.as_mut() else { return "k".to_string() };
+    let mut cx = Context::from_waker(waker);
+    match rx.poll(&mut cx, fresh) {
+        Poll::Ready(Some(v)) => format!("v{}", v),
+        Poll::Ready(None) => "c".to_string(),
+        Poll::Pending => "p".to_string(),
+    }
+}
 fn run_mpsc(ops: Vec<Op>) -> String {
     let mut wk = Wakers::new();
     let (tx, rx) = mpsc_channel::<i64>();
@@ -168,40 +335,51 @@ fn run_mpsc(ops: Vec<Op>) -> String {
     let mut rx: Option<MpscRx> = Some(MpscRx::new(rx));
     let mut out = Vec::new();
     for op in ops {
-        let r = match op {
-            Op::Send(h, v) if live(&txs, h) => match txs[h].as_ref().unwrap().send(v) {
-                Ok(()) => "u".to_string(),
-                Err(_) => "e".to_string(),
-            },
-            Op::Clone(h) if live(&txs, h) => {
-                let c = txs[h].as_ref().unwrap().clone();
-                txs.push(Some(c));
-                "u".to_string()
+        match op {
+            Op::Poll(w, fresh) => out.push(poll_mpsc(&mut rx, &wk.wakers[w], fresh)),
+            Op::DropR => out.push(if rx.take().is_some() { "u" } else { "k" }.to_string()),
+            Op::Race(w, a) => {
+                let (p, r) = race(|| poll_mpsc(&mut rx, &wk.wakers[w], false), || act_mpsc(&mut txs, &a));
+                out.push(p);
+                out.push(r);
             }
-            Op::DropS(h) if live(&txs, h) => {
-                drop(txs[h].take());
-                "u".to_string()
-            }
-            Op::Poll(w, fresh) if rx.is_some() => {
-                let mut cx = Context::from_waker(&wk.wakers[w]);
-                match rx.as_mut().unwrap().poll(&mut cx, fresh) {
-                    Poll::Ready(Some(v)) => format!("v{}", v),
-                    Poll::Ready(None) => "c".to_string(),
-                    Poll::Pending => "p".to_string(),
-                }
-            }
-            Op::DropR if rx.is_some() => {
-                drop(rx.take());
-                "u".to_string()
-            }
-            _ => "k".to_string(),
-        };
-        out.push(r + &wk.delta());
+            op => out.push(act_mpsc(&mut txs, &op)),
+        }
+        let d = wk.delta();
+        out.last_mut().unwrap().push_str(&d);
     }
     out.join(" ")
 }
 
 // ------------------------------------------------------------- notification
+fn act_notif(txs: &mut Vec<Option<NotificationSender>>, op: &Op) -> String {
+    match *op {
+        Op::Send(h, _) if live(txs, h) => {
+            txs[h].as_ref().unwrap().notify();
+            "u".to_string()
+        }
+        Op::Clone(h) if live(txs, h) => {
+            let c = txs[h].as_ref().unwrap().clone();
+            txs.push(Some(c));
+            "u".to_string()
+        }
+        Op::DropS(h) if live(txs, h) => {
+            drop(txs[h].take());
+            "u".to_string()
+        }
+        _ => "k".to_string(),
+    }
+}
+fn poll_notif(rx: &mut Option<NotificationReceiver>, waker: &Waker) -> String {
+    let Some(rx) = rx.as_mut() else { return "k".to_string() };
+    let mut cx = Context::from_waker(waker);
+    match Pin::new(rx).poll(&mut cx) {
+        Poll::Ready(Ok(())) => "v0".to_string(),
+        Poll::Ready(Err(DdsError::AlreadyDeleted)) => "c".to_string(),
+        Poll::Ready(Err(_)) => "x".to_string(),
+        Poll::Pending => "p".to_string(),
+    }
+}
 fn run_notif(ops: Vec<Op>) -> String {
     let mut wk = Wakers::new();
     let (tx, rx) = notification();
@@ -209,36 +387,18 @@ fn run_notif(ops: Vec<Op>) -> String {
     let mut rx: Option<NotificationReceiver> = Some(rx);
     let mut out = Vec::new();
     for op in ops {
-        let r = match op {
-            Op::Send(h, _) if live(&txs, h) => {
-                txs[h].as_ref().unwrap().notify();
-                "u".to_string()
+        match op {
+            Op::Poll(w, _) => out.push(poll_notif(&mut rx, &wk.wakers[w])),
+            Op::DropR => out.push(if rx.take().is_some() { "u" } else { "k" }.to_string()),
+            Op::Race(w, a) => {
+                let (p, r) = race(|| poll_notif(&mut rx, &wk.wakers[w]), || act_notif(&mut txs, &a));
+                out.push(p);
+                out.push(r);
             }
-            Op::Clone(h) if live(&txs, h) => {
-                let c = txs[h].as_ref().unwrap().clone();
-                txs.push(Some(c));
-                "u".to_string()
-            }
-            Op::DropS(h) if live(&txs, h) => {
-                drop(txs[h].take());
-                "u".to_string()
-            }
-            Op::Poll(w, _) if rx.is_some() => {
-                let mut cx = Context::from_waker(&wk.wakers[w]);
-                match Pin::new(rx.as_mut().unwrap()).poll(&mut cx) {
-                    Poll::Ready(Ok(())) => "v0".to_string(),
-                    Poll::Ready(Err(DdsError::AlreadyDeleted)) => "c".to_string(),
-                    Poll::Ready(Err(_)) => "x".to_string(),
-                    Poll::Pending => "p".to_string(),
-                }
-            }
-            Op::DropR if rx.is_some() => {
-                drop(rx.take());
-                "u".to_string()
-            }
-            _ => "k".to_string(),
-        };
-        out.push(r + &wk.delta());
+            op => out.push(act_notif(&mut txs, &op)),
+        }
+        let d = wk.delta();
+        out.last_mut().unwrap().push_str(&d);
     }
     out.join(" ")
 }
